@@ -289,6 +289,10 @@ SPECIAL = [
     # a relative name means what it means for the top-level text: not "next to the file that says include"
     ('same-name-next-to-the-including-file', b'include("@dir/f1.conf")', {b'dir/f1.conf': b'include("@f2.conf")\n', b'f2.conf': b'i = 8\n', b'dir/f2.conf': b'}}} not this one'}, b'i = 8'),
     ('name-only-next-to-the-including-file', b'include("@dir/f1.conf")\ni = 7', {b'dir/f1.conf': b'include("g.conf")\n', b'dir/g.conf': b'i = 8\n'}, None),
+    # the call itself may span lines: the including source goes on at the line of its closing parenthesis
+    ('include-call-over-several-lines', b'include\n(\n"@f1.conf"\n)\ni = x', {b'f1.conf': b'i = 7\n\n'}, None),
+    ('include-call-over-several-lines-in-section', b'sec {\ninclude(\n"@f1.conf")\nx = bad }', {b'f1.conf': b'x = 4\n'}, None),
+    ('include-call-over-several-lines-nested', b'include("@f1.conf")\ni = x', {b'f1.conf': b'include\n(\n"@f2.conf"\n)\n\n', b'f2.conf': b'i = 8'}, None),
     ('unterminated-string-in-file', b'include("@f1.conf")\ni = 8', {b'f1.conf': b's = "abc'}, None),
     ('unterminated-comment-in-file', b'include("@f1.conf")\ni = 8', {b'f1.conf': b'i = 7 /* abc'}, None),
     ('titled-instances-across-files', b'include("@f1.conf") include("@f2.conf")', {b'f1.conf': b'm { x = 1 }', b'f2.conf': b'm { x = 2 } m { }'}, b'm { x = 1 } m { x = 2 } m { }'),
